@@ -123,6 +123,44 @@ theorem print_print (cfg : RCfg) (days : List LogDay)
   simp only [Function.comp]
   rw [fmtFixed_stable _ e.value (hz d hd e he)]
 
+/-- a note of one of the two documented forms, written with plain text: `# text` (no colon in the text) or
+    `# name: value` (no colon in the name); "plain" = does not start with a space rune or `#`, does not end with a space
+    rune, `#` or a byte the tokenizer trims (`:`, `"`, `-`), and holds no line feed -/
+def NotePlain (m : MetaPair) : Prop :=
+  (m.name = [] ∧ PrintDoc.WordOK m.value ∧ (∀ b ∈ m.value, b ≠ 58) ∧ (∀ b ∈ m.value, b ≠ 10))
+  ∨ (PrintDoc.WordOK m.name ∧ PrintDoc.WordOK m.value ∧ (∀ b ∈ m.name, b ≠ 58) ∧ (∀ b ∈ m.name, b ≠ 10) ∧ (∀ b ∈ m.value, b ≠ 10))
+
+/-- notes of the documented forms survive printing and reading -/
+theorem documented_notes_read_back (m : MetaPair) (h : NotePlain m) : PrintDoc.NoteOK m := by
+  rcases h with ⟨hn, hw, hc, hlf⟩ | ⟨hwn, hwv, hc, hlfn, hlfv⟩
+  · cases m with
+    | mk name value => simp only at hn; subst hn; exact PrintDoc.note_text_ok value hw hc hlf
+  · cases m with
+    | mk name value => exact PrintDoc.note_named_ok name value hwn hwv hc hlfn hlfv
+
+/-- the *syntactic* well-formedness of a day: everything `DayOK` asks for, stated on the data -/
+structure DayPlain (l : Layout) (d : LogDay) : Prop where
+  date : Date.CivilOK d.date
+  names : ∀ e ∈ d.elements, Doc.NameOK PConst.commentChar e.name ∧ ∀ b ∈ e.name, b ≠ 10
+  values : ∀ e ∈ d.elements, roundedAt Facts.printPrecision e.value < 10 ^ (308 + Facts.printPrecision)
+  distinct : (Elements.names d.elements).Nodup
+  notes : ∀ m ∈ d.notes, NotePlain m
+  fit : ∀ ln ∈ Doc.Record.lines PConst.commentChar (PrintDoc.dayRecord l d), ln.length < PConst.maxToken
+
+theorem dayOK_of_plain (l : Layout) (d : LogDay) (hl : PrintDoc.headingOK l = true) (h : DayPlain l d) : PrintDoc.DayOK l d :=
+  have hh := PrintDoc.format_nameOK l d.date hl
+  ⟨h.date, hh.1, hh.2, h.names, h.values, h.distinct, fun m hm => documented_notes_read_back m (h.notes m hm), h.fit⟩
+
+/-- **Main theorem, on syntactic hypotheses.**  For every date layout that names year, month and day unambiguously and
+    starts and ends with a number or a harmless separator, and for days with accepted dates, legal distinct food names,
+    amounts in float64's range and notes of the documented forms, reading what `print` wrote gives the same days,
+    foods and notes with the amounts as printed. -/
+theorem print_reparse_plain (cfg : RCfg) (days : List LogDay) (hl : Date.roundTrips cfg.dateLayout = true)
+    (hh : PrintDoc.headingOK cfg.dateLayout = true) (h : ∀ d ∈ days, DayPlain cfg.dateLayout d) :
+    App.walk cfg.dateLayout none none none (Parser.events PConst.commentChar (App.perDay (renderPrint cfg) days))
+      = (days.map PrintDoc.printedDay, none) :=
+  print_reparse cfg days hl (fun d hd => dayOK_of_plain cfg.dateLayout d hh (h d hd))
+
 /-! non-vacuity: the hypotheses of `print_reparse` are met by a day with a nested food name, a negative amount, a
     `name: value` note and a text note, in the default layout -/
 def demoLayout : Layout := [.year4, .lit 47, .month2, .lit 47, .day2]
@@ -158,6 +196,13 @@ example : Date.roundTrips demoLayout = true ∧ DayOK demoLayout demoDay := by
            [32, 32, 45, 32, 97, 47, 98, 58, 32, 48, 46, 51, 56], [32, 32, 45, 32, 99, 58, 32, 45, 50, 46, 48, 48], []] := by
       decide +kernel
     rw [this]; decide
+
+/-- the two notes of the demo day are of the documented plain forms, and the default layout makes legal headings -/
+example : NotePlain ⟨[110], [118]⟩ ∧ NotePlain ⟨[], [116, 32, 120]⟩ ∧ PrintDoc.headingOK demoLayout = true := by
+  refine ⟨Or.inr ⟨⟨⟨110, [], rfl, by decide, by decide⟩, ⟨[], 110, rfl, by decide, by decide, by decide⟩⟩,
+      ⟨⟨118, [], rfl, by decide, by decide⟩, ⟨[], 118, rfl, by decide, by decide, by decide⟩⟩, by decide, by decide, by decide⟩,
+    Or.inl ⟨rfl, ⟨⟨116, [32, 120], rfl, by decide, by decide⟩, ⟨[116, 32], 120, rfl, by decide, by decide, by decide⟩⟩, by decide, by decide⟩,
+    by decide⟩
 
 open PrintDoc in
 example : App.walk [.year4, .lit 47, .month2, .lit 47, .day2] none none none
